@@ -1298,6 +1298,18 @@ fn e2e_run_case(c: &Case, out: &mut dyn Write) {
 /// chooses: traffic class / flow label in-line, stateful contexts, elided UDP checksum, NHC extension
 /// headers, every SAM/DAM form), addressed from A to B so that B's ingress filters accept it
 fn gen_recv_op(rng: &mut Rng, cfg: &E2eCfg) -> String {
+    // the frame must fit an 802.15.4 frame (127 octets), otherwise the MAC layer drops it
+    for _ in 0..8 {
+        let (op, len, bc) = gen_recv_op1(rng, cfg);
+        let maclen = 3 + 2 + 8 + if bc { 2 } else { 8 };
+        if maclen + len <= 127 {
+            return op;
+        }
+    }
+    "recv bc=0 pl=7e33f00102".to_string()
+}
+
+fn gen_recv_op1(rng: &mut Rng, cfg: &E2eCfg) -> (String, usize, bool) {
     let la = ll_link_local(&cfg.lla).octets();
     let lb = ll_link_local(&cfg.llb).octets();
     let r = rng.bytes(64);
@@ -1528,7 +1540,7 @@ fn gen_recv_op(rng: &mut Rng, cfg: &E2eCfg) -> String {
         }
         _ => pl,
     };
-    format!("recv bc={} pl={}", bc as u8, hex(&out))
+    (format!("recv bc={} pl={}", bc as u8, hex(&out)), out.len(), bc)
 }
 
 fn gen_sched(rng: &mut Rng) -> String {
